@@ -124,6 +124,9 @@ def batch(v, B, OD, AD=None, A=None, tag=""):
             v.assume(conj(val(AC, b, 0) >= 0, val(AC, b, 0) < A), "actions taken are valid action indices")
     else:
         AC = v.tensor(f"{tag}a", (B, AD))
+    # the stubs tell calls apart by the contents of their input: a replay model in which obs and next_obs coincide could
+    # not show which of the two a network was evaluated on (a wish for replay models only, never an assumption)
+    v.prefer(neg(eq(val(S, 0, 0), val(NS, 0, 0))))
     return S, AC, R, NS, D
 
 
@@ -631,8 +634,11 @@ def cases(tier):
     cs += [SoftUpdateReal("DQN", "clone"), SoftUpdateReal("TD3", "clone"), SoftUpdateReal("DQN", "second-step"), SoftUpdateReal("CQN", "second-step"),
            SoftUpdateReal("RainbowDQN", "second-step"), SoftUpdateReal("DDPG", "second-step")]
     # Rainbow's learn(): which batch, done flag and discount feed the 1-step / n-step losses (harness shared with C18)
-    from .c18_rainbow import RainbowLearn
+    from .c18_rainbow import RainbowLearn, RainbowLoss
     cs += [RainbowLearn(2, 0, 1, per=False, nstep=True, combined=True), RainbowLearn(2, 0, 1, per=True, nstep=True, combined=False)]
+    # ... and the loss itself: the categorical target is the projection of r + gamma^n (1 - d) z onto the support (C18's
+    # harness; here the smallest support that has an interior atom and both edges)
+    cs += [RainbowLoss(3, -2, 2)]
     if tier == "thorough":
         cs += [QLearn("DQN", True, B=3, A=3), QLearn("CQN", False, B=3, A=3), ACLearn("DDPG", B=3, freq=1), ACLearn("TD3", B=3, freq=2),
                MALearn("MADDPG", B=2, N=3), MALearn("MATD3", B=2, N=3, freq=3)]
